@@ -88,7 +88,7 @@ def cases(ctx):
     for j in range((1200 if quick else 20000) // ctx.nshards + 1):
         yield {'salt': rng.randint(0, 10 ** 9), 'rows': rng.choice([1, 2, 5, 12, 50] + ([] if quick else [150, 400])),
                'enc': rng.choice(CODECS), 'blocked': rng.random() < 0.5, 'entry': rng.choice(['function', 'cli_run']),
-               'shape': rng.choice(['all_columns', 'subset', 'subset', 'pds_only', 'pds_with_others', 'noncanonical_dates'])}
+               'shape': rng.choice(['all_columns', 'subset', 'subset', 'pds_only', 'pds_with_others', 'noncanonical_dates', 'pds_boundary'])}
 
 
 def build_table(ctx, case):
@@ -100,6 +100,20 @@ def build_table(ctx, case):
     shape = case['shape']
     rows = []
     for r in range(case['rows']):
+        if shape == 'pds_boundary':
+            # two or three PDS cells whose packed length crosses the 999-character carrier boundary
+            use = ['MTI'] + rng.sample(pds_cols, rng.choice([2, 3])) + rng.sample([c for c in de_cols if c != 'DE48'], rng.randint(0, 4))
+            row = {c: cell(ctx, rng, c, enc) for c in use}
+            p = [c for c in use if c.startswith('PDS')]
+            total = rng.randint(970, 1010) - 7 * len(p)
+            first = rng.randint(1, min(992, total - len(p) + 1))
+            rest = total - first
+            lens = [first] + ([rest] if len(p) == 2 else [rest // 2, rest - rest // 2])
+            for c, n in zip(p, lens):
+                row[c] = printable(rng, enc, max(1, min(992, n)), rng.choice(['alnum', 'mixed', 'csvmeta']))
+            rows.append(row)
+            ctx_boundary = True
+            continue
         if shape == 'all_columns':
             use = ['MTI'] + de_cols + (pds_cols if rng.random() < 0.5 else [])
         elif shape == 'pds_only':
